@@ -35,7 +35,29 @@ var fsSyscalls = map[uint64]string{
 	188: "setxattr", 189: "lsetxattr", 190: "fsetxattr", 133: "mknod", 259: "mknodat",
 }
 
+// sysFault makes the k-th file-system call fail instead of killing the process: the call is not executed and returns
+// -errno. With sticky set, every later call of the same class fails the same way (the disk stays full).
+type sysFault struct {
+	errno  syscall.Errno
+	sticky bool
+}
+
+// spaceCall reports whether a call needs free space (fails with ENOSPC on a full disk).
+func spaceCall(name string) bool {
+	switch name {
+	case "write", "pwrite64", "writev", "pwritev", "open(O_CREAT|O_TRUNC)", "openat(O_CREAT|O_TRUNC)", "creat", "mkdir", "mkdirat",
+		"ftruncate", "truncate", "fallocate", "link", "linkat", "symlink", "symlinkat", "mknod", "mknodat", "copy_file_range", "ioctl(FICLONE)",
+		"setxattr", "lsetxattr", "fsetxattr", "fsync", "fdatasync":
+		return true
+	}
+	return false
+}
+
 func runTraced(k int, dir string, limit time.Duration, args ...string) (*tracedRun, error) {
+	return runTracedFault(k, nil, dir, limit, args...)
+}
+
+func runTracedFault(k int, fault *sysFault, dir string, limit time.Duration, args ...string) (*tracedRun, error) {
 	runtime.LockOSThread()
 	defer runtime.UnlockOSThread()
 	devnull, err := os.OpenFile(os.DevNull, os.O_RDWR, 0)
@@ -72,6 +94,8 @@ func runTraced(k int, dir string, limit time.Duration, args ...string) (*tracedR
 	inSys := map[int]bool{}
 	known := map[int]bool{pid: true}
 	killed := false
+	failing := map[int]bool{} // tid -> the call it is in was replaced, patch its result at the exit stop
+	tripped := false
 	for {
 		wpid, err := syscall.Wait4(-1, &ws, syscall.WALL, nil)
 		if err == syscall.EINTR {
@@ -95,15 +119,33 @@ func runTraced(k int, dir string, limit time.Duration, args ...string) (*tracedR
 		switch {
 		case sig == syscall.SIGTRAP|0x80: // system call stop
 			inSys[wpid] = !inSys[wpid]
+			if !inSys[wpid] && failing[wpid] {
+				delete(failing, wpid)
+				var regs syscall.PtraceRegs
+				if syscall.PtraceGetRegs(wpid, &regs) == nil {
+					regs.Rax = uint64(-int64(fault.errno))
+					syscall.PtraceSetRegs(wpid, &regs)
+				}
+			}
 			if inSys[wpid] && !killed {
 				var regs syscall.PtraceRegs
 				if syscall.PtraceGetRegs(wpid, &regs) == nil {
 					if name := fsCall(wpid, &regs, dir); name != "" {
 						res.points = append(res.points, name)
-						if k > 0 && len(res.points) == k {
+						hit := k > 0 && len(res.points) == k
+						switch {
+						case hit && fault == nil:
 							res.killedAt = name
 							killed = true
 							syscall.Kill(pid, syscall.SIGKILL)
+						case fault != nil && (hit || (tripped && fault.sticky && spaceCall(name))):
+							if hit {
+								res.killedAt, tripped = name, true
+							}
+							regs.Orig_rax = ^uint64(0) // no such call: the kernel skips it
+							if syscall.PtraceSetRegs(wpid, &regs) == nil {
+								failing[wpid] = true
+							}
 						}
 					}
 				}
